@@ -87,7 +87,7 @@ int main(int argc, char** argv) {
     std::vector<unsigned> nbs = T ? std::vector<unsigned>{2, 3, 4} : std::vector<unsigned>{2};
     if (D) { ns.push_back(32); ns.push_back(33); nbs.push_back(5); nbs.push_back(6); }
     for (unsigned n : ns) for (unsigned nb : nbs) for (int kind = 0; kind < NKIND; kind++) for (unsigned it = 1; it <= 4; it++)
-    for (int var = 0; var < 4; var++) for (int dv = 0; dv < 2; dv++) {
+    for (int var = 0; var < 4; var++) for (int dv = 0; dv < 3; dv++) {     // dv 2: the bunches after the first hold bit-identical data (which differs from the first bunch's)
         // var 3: rows of one bunch displaced beyond the grid (y-kick fields); for the Fokker-Planck kinds var selects the variant {none, damping, diffusion, full}
         if (var == 3 && kind != KICKY && kind != FP3 && kind != FP4) continue;
         FPT = var;
@@ -99,7 +99,7 @@ int main(int argc, char** argv) {
         auto A = alphabet(n);
         std::vector<std::vector<float>> data(nb), fields(nb);
         for (unsigned b = 0; b < nb; b++) {
-            data[b] = bunch_data(n, b, dv);
+            data[b] = dv == 2 ? bunch_data(n, b ? 1 : 0, 0) : bunch_data(n, b, dv);
             fields[b].resize(n);
             // x-kicks share one field by design (the drift is the same for all bunches); y-kicks get a different field per bunch
             for (unsigned r = 0; r < n; r++) fields[b][r] = A[(r * 3 + var * 5 + (kind == KICKY ? b * 11 : 0)) % A.size()];
@@ -115,6 +115,7 @@ int main(int argc, char** argv) {
         std::vector<float> multi, wake_multi;
         {
             HIST = (dv == 1);
+            if (dv == 2 && kind == KICKY) for (unsigned b = 2; b < nb; b++) fields[b] = fields[1];     // ... and the same field
             Built B = build(kind, n, nb, it, var % 3, data, fields, buckets, N, spacing);
             HIST = false;
             B.m->apply();
@@ -162,6 +163,6 @@ int main(int argc, char** argv) {
             }
         }
     }
-    R.bound_done(std::string("map classes x n x nb x it x 3 parameter variants (+ off-grid rows for y-kicks; all 4 Fokker-Planck variants) x 2 data variants, ") + (T ? "n{8,12,13,16,24} nb{2,3,4}" : "n{8,9} nb{2}"));
+    R.bound_done(std::string("map classes x n x nb x it x 3 parameter variants (+ off-grid rows for y-kicks; all 4 Fokker-Planck variants) x 3 data variants (one with identical bunches behind a different first one), ") + (T ? "n{8,12,13,16,24} nb{2,3,4}" : "n{8,9} nb{2}"));
     return R.finish();
 }
